@@ -6,7 +6,7 @@ TYPES = {
              "x": "real?", "dx": "real?", "y": "real?", "dy": "real?", "w": "real", "h": "real", "targetPos": "real?"},
     "Any": {},
     # timeline.Item as far as the layout code reads it (Node.data of a timeline's nodes; other callers never read its fields)
-    "Item": {"width": "real", "height": "real", "data": "ref:Any"},
+    "Item": {"width": "real", "height": "real", "data": "ref:Any", "text": "ref:Any"},
 }
 
 _NODE_FIELDS = ["Node.idealPos", "Node.currentPos", "Node.width", "Node.data", "Node.layerIndex", "Node.parent", "Node.child",
